@@ -362,6 +362,9 @@ def _from48(v):
 
 
 def run(ctx):
+    from spverif.ref import enums as _enums
+    if ctx.shard[0] == 0:
+        _enums.check(ctx, "code_tables", ['spacepackets.ccsds.spacepacket'])
     from spverif.san import scribble
     scribble.install()
     r = ctx.rng
